@@ -71,7 +71,7 @@ pub fn solved_form(c: &[(Term, Term)]) -> Option<Vec<(VarId, Term)>> {
     for (a, b) in c {
         s = unify(&s, a, b)?;
     }
-    Some(s.0.keys().map(|k| (*k, s.apply(&Term::Var(*k)))).collect())
+    Some(s.keys().into_iter().map(|k| (k, s.apply(&Term::Var(k)))).collect())
 }
 
 /// Sorted list of solved forms; Err(()) if some constraint is unsatisfiable.
